@@ -415,3 +415,360 @@ Proof.
     + apply so_wrote; assumption.
     + apply so_failed with (e := e); assumption.
 Qed.
+
+(* ------------------------------------------------------------------ all three classes behind the collector interface *)
+Definition st_holds (j : bool) (n : Z) (c : coll) (u : ucoll) : Prop :=
+  match c with
+  | CUnc x => x = u /\ uc_inv j n u
+  | CStream s => sc_holds j n s u
+  | CSDyn x => sd_holds j n x u
+  | _ => False
+  end.
+
+Definition is_sdyn (c : coll) : bool := match c with CSDyn _ => true | _ => false end.
+
+Lemma st_holds_proj : forall j n c u, st_holds j n c u -> coll_ucoll c = Some u /\ uc_inv j n u.
+Proof.
+  intros j n c u H. destruct c as [| | |s|x|x]; cbn [st_holds] in H; try contradiction.
+  - destruct H as (Hi & Hu & _). cbn [coll_ucoll]. rewrite Hi. split; [reflexivity|exact Hu].
+  - destruct H as ((Hi & Hu & _) & _). cbn [coll_ucoll]. rewrite Hi. split; [reflexivity|exact Hu].
+  - destruct H as (E & Hu). subst x. split; [reflexivity|exact Hu].
+Qed.
+
+Lemma st_holds_pend : forall j n c u, st_holds j n c u -> pend c = uc_samples u /\ cmeta c = uc_meta u /\ cjson c = Some j.
+Proof.
+  intros j n c u H. apply st_holds_proj in H. destruct H as (E & (Hj & _)). unfold pend, cmeta, cjson. rewrite E, Hj.
+  repeat split.
+Qed.
+
+Lemma st_holds_obs : forall j n c u, st_holds j n c u ->
+  c_info c = (uc_mcount u, Z.of_nat (length (uc_samples u))) /\ c_resolve deflate c = uc_resolve u.
+Proof.
+  intros j n c u H. destruct c as [| | |s|x|x]; cbn [st_holds] in H; try contradiction.
+  - destruct H as (Hi & _). cbn [c_info c_resolve]. rewrite Hi. split; reflexivity.
+  - destruct H as ((Hi & _) & _). cbn [c_info c_resolve]. rewrite Hi. split; reflexivity.
+  - destruct H as (E & _). subst x. split; reflexivity.
+Qed.
+
+Lemma st_new_holds : forall k n, unc_kind k = true -> 0 <= n ->
+  st_holds (kind_json k) n (new_coll k n) (mkUcoll (kind_json k) n 0 None []).
+Proof.
+  intros k n Hk Hn. pose proof (uc_new_inv (kind_json k) n Hn) as Hu.
+  destruct k; try discriminate Hk; cbn [new_coll st_holds kind_json] in *.
+  - split; [reflexivity|exact Hu].
+  - split; [reflexivity|exact Hu].
+  - repeat split; try apply Hu.
+  - repeat split; try apply Hu.
+  - repeat split; try apply Hu.
+  - repeat split; try apply Hu.
+Qed.
+
+Lemma c_reset_holds : forall j n c u, 0 <= n -> st_holds j n c u -> st_holds j n (c_reset c) (uc_reset u).
+Proof.
+  intros j n c u Hn H. destruct c as [| | |s|x|x]; cbn [st_holds] in H; try contradiction; cbn [c_reset st_holds].
+  - apply sc_reset_holds; assumption.
+  - apply sd_reset_holds; assumption.
+  - destruct H as (E & Hu). subst x. split; [reflexivity|apply uc_reset_inv; assumption].
+Qed.
+
+Definition uc_with_meta (u : ucoll) (m : option doc) : ucoll :=
+  mkUcoll (uc_json u) (uc_batch u) (uc_mcount u) m (uc_samples u).
+
+Lemma c_set_meta_holds : forall j n c u m, st_holds j n c u -> st_holds j n (c_set_meta c m) (uc_with_meta u m).
+Proof.
+  intros j n c u m H. destruct c as [| | |s|x|x]; cbn [st_holds] in H; try contradiction; cbn [c_set_meta st_holds].
+  - destruct H as (Hi & Hu & Hm & Hc). unfold sc_holds. cbn [sc_inner sc_max sc_count]. rewrite Hi. cbn [in_set_meta].
+    split; [reflexivity|]. split; [exact Hu|]. split; assumption.
+  - destruct H as ((Hi & Hu & Hm & Hc) & Hh). unfold sd_holds, sc_holds. cbn [sd_s sd_hash sd_mcount sc_inner sc_max sc_count].
+    rewrite Hi. cbn [in_set_meta]. split; [|exact Hh].
+    split; [reflexivity|]. split; [exact Hu|]. split; assumption.
+  - destruct H as (E & Hu). subst x. split; [reflexivity|exact Hu].
+Qed.
+
+Lemma gen_out_map : forall (S T : Type) (h1 : S -> ucoll -> Prop) (h2 : T -> ucoll -> Prop) (f : S -> T),
+  (forall s u, h1 s u -> h2 (f s) u) ->
+  forall j u w d s' u' w' r, gen_out h1 j u w d s' u' w' r -> gen_out h2 j u w d (f s') u' w' r.
+Proof.
+  intros S T h1 h2 f Hf j u w d s' u' w' r Ho.
+  inversion Ho as [s2 u2 r2 Hnf Hh2 Hm2 Hs2|s2 u2 w2 Hne Hlog Hh2 Hm2 Hs2|s2 w2 e Hh2 Hne Hlog He]; subst.
+  - apply so_quiet; try assumption. apply Hf. exact Hh2.
+  - apply so_wrote; try assumption. apply Hf. exact Hh2.
+  - apply so_failed with (e := e); try assumption. apply Hf. exact Hh2.
+Qed.
+
+Lemma c_add_out : forall j n c u w d now, 1 <= n -> st_holds j n c u ->
+  exists c' u' w' r, c_add deflate c w d now = (c', w', r) /\ gen_out (st_holds j n) j u w d c' u' w' r /\
+    is_sdyn c' = is_sdyn c.
+Proof.
+  intros j n c u w d now Hn H. destruct c as [| | |s|x|x]; cbn [st_holds] in H; try contradiction; cbn [c_add].
+  - destruct (sc_add_out j n s u w d now Hn H) as (s' & u' & w' & r & Ha & Ho). rewrite Ha.
+    exists (CStream s'), u', w', r. split; [reflexivity|]. split; [|reflexivity].
+    apply (gen_out_map _ _ (sc_holds j n) (st_holds j n) CStream); [|exact Ho]. intros s0 u0 H0. exact H0.
+  - destruct (sd_add_out j n x u w d now Hn H) as (s' & u' & w' & r & Ha & Ho). rewrite Ha.
+    exists (CSDyn s'), u', w', r. split; [reflexivity|]. split; [|reflexivity].
+    apply (gen_out_map _ _ (sd_holds j n) (st_holds j n) CSDyn); [|exact Ho]. intros s0 u0 H0. exact H0.
+  - destruct H as (E & Hu). subst x.
+    destruct (uc_add_spec j n u d Hn Hu) as (u' & Ha & Hu' & Hm & Hs). rewrite Ha.
+    exists (CUnc u'), u', w, (uc_add_res u d). split; [reflexivity|]. split; [|reflexivity].
+    apply so_quiet; try assumption.
+    + unfold uc_add_res. destruct (_ && _); [discriminate|]. destruct (_ <=? _); discriminate.
+    + split; [reflexivity|exact Hu'].
+Qed.
+
+(* FlushCollector on any of the kinds *)
+Inductive flush_out (j : bool) (n : Z) (c : coll) (u : ucoll) (w : writer) : coll -> ucoll -> writer -> bool -> Prop :=
+| fo_quiet : uc_samples u = [] -> flush_out j n c u w c u w true
+| fo_wrote : forall w', uc_samples u <> [] -> w_log w' = w_log w ++ [WFull (payload j u)] ->
+    flush_out j n c u w (c_reset c) (uc_reset u) w' true
+| fo_failed : forall w' e, uc_samples u <> [] -> log_ev w w' (payload j u) e -> e <> WDone ->
+    flush_out j n c u w c u w' false.
+
+Lemma flush_res_out : forall j n c u w w' ok e (c' : coll),
+  uc_samples u <> [] -> log_ev w w' (payload j u) e -> (ok = true <-> e = WDone) ->
+  c' = (if ok then c_reset c else c) ->
+  flush_out j n c u w c' (if ok then uc_reset u else u) w' ok.
+Proof.
+  intros j n c u w w' ok e c' Hne Hlog Hok E. subst c'. destruct ok.
+  - assert (e = WDone) by (apply Hok; reflexivity). subst e. apply fo_wrote; assumption.
+  - apply fo_failed with (e := e); try assumption. intros E. apply Hok in E. discriminate E.
+Qed.
+
+Lemma c_flush_out : forall j n c u w, st_holds j n c u ->
+  exists c' u' w' ok, c_flush deflate c w = (c', w', ok) /\ flush_out j n c u w c' u' w' ok.
+Proof.
+  intros j n c u w H. pose proof H as H0. destruct c as [| | |s|x|x]; cbn [st_holds] in H; try contradiction; cbn [c_flush].
+  - destruct (sc_flush_spec j n s u w H) as [[E Hf]|(Hne & w' & ok & e & Hw & Hlog & Hok & Hf)]; rewrite Hf.
+    + exists (CStream s), u, w, true. split; [reflexivity|]. apply fo_quiet. exact E.
+    + eexists _, _, w', ok. split; [reflexivity|]. apply (flush_res_out j n (CStream s) u w w' ok e); try assumption.
+      destruct ok; reflexivity.
+  - destruct (sd_flush_spec j n x u w H) as [[E Hf]|(Hne & w' & ok & e & Hw & Hlog & Hok & Hf)]; rewrite Hf.
+    + exists (CSDyn x), u, w, true. split; [reflexivity|]. apply fo_quiet. exact E.
+    + eexists _, _, w', ok. split; [reflexivity|]. apply (flush_res_out j n (CSDyn x) u w w' ok e); try assumption.
+      destruct ok; reflexivity.
+  - destruct H as (E & Hu). subst x.
+    destruct (flush_with_spec coll c_info (c_resolve deflate) c_reset (CUnc u) w j (uc_meta u) (uc_samples u))
+      as [[E Hf]|(Hne & w' & ok & e & Hw & Hlog & Hok & Hf)].
+    + reflexivity.
+    + cbn [c_resolve]. rewrite uc_resolve_spec. destruct Hu as (Hj & _). rewrite Hj. reflexivity.
+    + rewrite Hf. exists (CUnc u), u, w, true. split; [reflexivity|]. apply fo_quiet. exact E.
+    + rewrite Hf. eexists _, _, w', ok. split; [reflexivity|].
+      apply (flush_res_out j n (CUnc u) u w w' ok e); try assumption. reflexivity.
+Qed.
+
+(* Add of an unreadable input *)
+Lemma c_add_bad_out : forall j n c u w, st_holds j n c u ->
+  exists c' u' w' r, c_add_bad deflate c w = (c', w', r) /\ r <> ROk /\ is_sdyn c' = is_sdyn c /\
+    ((c' = c /\ u' = u /\ w' = w) \/ exists ok, flush_out j n c u w c' u' w' ok).
+Proof.
+  intros j n c u w H. pose proof H as H0. destruct c as [| | |s|x|x]; cbn [st_holds] in H; try contradiction; cbn [c_add_bad].
+  - destruct (sc_max s <=? sc_count s).
+    + destruct (c_flush_out j n (CStream s) u w H0) as (c' & u' & w' & ok & Hf & Ho). cbn [c_flush] in Hf.
+      destruct (sc_flush deflate s w) as [[s1 w1] ok1]. injection Hf as E1 E2 E3. subst c' w' ok.
+      exists (CStream s1), u', w1, (if ok1 then RCount else RFlush). split; [reflexivity|].
+      split; [destruct ok1; discriminate|]. split; [reflexivity|]. right. exists ok1. exact Ho.
+    + exists (CStream s), u, w, RCount. split; [reflexivity|]. split; [discriminate|]. split; [reflexivity|].
+      left. repeat split.
+  - exists (CSDyn x), u, w, RCount. split; [reflexivity|]. split; [discriminate|]. split; [reflexivity|]. left. repeat split.
+  - exists (CUnc x), u, w, RCount. split; [reflexivity|]. split; [discriminate|]. split; [reflexivity|]. left. repeat split.
+Qed.
+
+(* ------------------------------------------------------------------ refinement *)
+(* summary of a transition that may write once and then append [added] *)
+Definition tr (j : bool) (n : Z) (u : ucoll) (w : writer) (added : list doc) (c' : coll) (u' : ucoll) (w' : writer) : Prop :=
+  st_holds j n c' u' /\ uc_meta u' = uc_meta u /\
+  exists e, log_ev w w' (payload j u) e /\ (e <> WNone -> uc_samples u <> []) /\
+    uc_samples u' = (match e with WDone => [] | _ => uc_samples u end) ++ added.
+
+Lemma gen_out_tr : forall j n u w d c' u' w' r,
+  gen_out (st_holds j n) j u w d c' u' w' r -> tr j n u w (match r with ROk => [d] | _ => [] end) c' u' w'.
+Proof.
+  intros j n u w d c' u' w' r Ho.
+  inversion Ho as [s2 u2 r2 Hnf Hh2 Hm2 Hs2|s2 u2 w2 Hne Hlog Hh2 Hm2 Hs2|s2 w2 e Hh2 Hne Hlog He]; subst.
+  - split; [exact Hh2|]. split; [exact Hm2|]. exists WNone. split; [reflexivity|]. split; [intros X; contradiction|exact Hs2].
+  - split; [exact Hh2|]. split; [exact Hm2|]. exists WDone. split; [exact Hlog|]. split; [intros _; exact Hne|exact Hs2].
+  - split; [exact Hh2|]. split; [reflexivity|]. exists e. split; [exact Hlog|]. split; [intros _; exact Hne|].
+    rewrite app_nil_r. destruct e; [reflexivity|contradiction|reflexivity].
+Qed.
+
+Lemma flush_out_tr : forall j n c u w c' u' w' ok, 0 <= n -> st_holds j n c u ->
+  flush_out j n c u w c' u' w' ok -> tr j n u w [] c' u' w'.
+Proof.
+  intros j n c u w c' u' w' ok Hn Hh Ho. inversion Ho as [He|w2 Hne Hlog|w2 e Hne Hlog He]; subst.
+  - split; [exact Hh|]. split; [reflexivity|]. exists WNone. split; [reflexivity|]. split; [intros X; contradiction|].
+    rewrite app_nil_r. reflexivity.
+  - split; [apply c_reset_holds; assumption|]. split; [reflexivity|]. exists WDone. split; [exact Hlog|].
+    split; [intros _; exact Hne|reflexivity].
+  - split; [exact Hh|]. split; [reflexivity|]. exists e. split; [exact Hlog|]. split; [intros _; exact Hne|].
+    rewrite app_nil_r. destruct e; [reflexivity|contradiction|reflexivity].
+Qed.
+
+Definition Inv (j : bool) (n : Z) (st : coll * writer) (a : aspec) : Prop :=
+  (exists u, st_holds j n (fst st) u) /\ refines j st a /\ recs_bounded n a /\
+  (is_sdyn (fst st) = true -> recs_unmixed a).
+
+Lemma sd_pending_one_schema : forall j n c u, st_holds j n c u -> is_sdyn c = true -> one_schema (uc_samples u).
+Proof.
+  intros j n c u H Hs. destruct c as [| | |s|x|x]; try discriminate Hs. cbn [st_holds] in H. destruct H as (_ & Hh).
+  destruct (sd_hash x) as [h|].
+  - intros a b Ha Hb. rewrite Forall_forall in Hh. rewrite (Hh a Ha), (Hh b Hb). reflexivity.
+  - rewrite Hh. intros a b [].
+Qed.
+
+Lemma tr_inv : forall j n c w a u added c' u' w',
+  Inv j n (c, w) a -> st_holds j n c u -> tr j n u w added c' u' w' -> is_sdyn c' = is_sdyn c ->
+  let a1 := spec_flush a (wev_of w w') in
+  Inv j n (c', w') (mkAspec (a_recs a1) (a_pend a1 ++ added) (a_meta a)).
+Proof.
+  intros j n c w a u added c' u' w' (_ & (Hlog & Hp & Hm) & Hb & Hx) Hh (Hh' & Hmeta & e & Hev & Hne & Hs) Hcls.
+  cbn [fst snd] in *.
+  destruct (st_holds_pend j n c u Hh) as (Ep & Em & _). destruct (st_holds_pend j n c' u' Hh') as (Ep' & Em' & _).
+  rewrite Ep in Hp. rewrite Em in Hm.
+  rewrite (log_ev_wev w w' _ e Hev). cbn zeta.
+  assert (Hu : uc_inv j n u) by (apply (st_holds_proj j n c u Hh)).
+  destruct Hu as (_ & _ & Hlen & _).
+  split; [exists u'; exact Hh'|]. unfold refines. cbn [fst snd].
+  destruct e as [| |k]; cbn [spec_flush a_recs a_pend a_meta log_ev] in *.
+  - split; [|split; [exact Hb|rewrite Hcls; exact Hx]].
+    split; [rewrite Hev; exact Hlog|]. split; [rewrite Ep', Hs, Hp; reflexivity|rewrite Em', Hmeta; exact Hm].
+  - assert (Hne' : uc_samples u <> []) by (apply Hne; discriminate).
+    split; [|split].
+    + split; [|split; [rewrite Ep', Hs; reflexivity|rewrite Em', Hmeta; exact Hm]].
+      rewrite Hev, Hlog, map_app. cbn [map]. unfold wrec_of, payload. cbn [gr_meta gr_samples gr_part].
+      rewrite <- Hp, <- Hm. reflexivity.
+    + unfold recs_bounded. cbn [a_recs]. apply Forall_app. split; [exact Hb|]. constructor; [|constructor].
+      cbn [gr_samples]. rewrite <- Hp. split; assumption.
+    + intros Hsd. rewrite Hcls in Hsd. unfold recs_unmixed. cbn [a_recs]. apply Forall_app. split; [apply Hx; exact Hsd|].
+      constructor; [|constructor]. cbn [gr_samples]. rewrite <- Hp. apply (sd_pending_one_schema j n c u Hh Hsd).
+  - assert (Hne' : uc_samples u <> []) by (apply Hne; discriminate).
+    split; [|split].
+    + split; [|split; [rewrite Ep', Hs, Hp; reflexivity|rewrite Em', Hmeta; exact Hm]].
+      rewrite Hev, Hlog, map_app. cbn [map]. unfold wrec_of, payload. cbn [gr_meta gr_samples gr_part].
+      rewrite <- Hp, <- Hm. reflexivity.
+    + unfold recs_bounded. cbn [a_recs]. apply Forall_app. split; [exact Hb|]. constructor; [|constructor].
+      cbn [gr_samples]. rewrite <- Hp. split; assumption.
+    + intros Hsd. rewrite Hcls in Hsd. unfold recs_unmixed. cbn [a_recs]. apply Forall_app. split; [apply Hx; exact Hsd|].
+      constructor; [|constructor]. cbn [gr_samples]. rewrite <- Hp. apply (sd_pending_one_schema j n c u Hh Hsd).
+Qed.
+
+Lemma aspec_eta : forall a, mkAspec (a_recs a) (a_pend a) (a_meta a) = a.
+Proof. intros []. reflexivity. Qed.
+
+Lemma spec_flush_meta : forall a e, a_meta (spec_flush a e) = a_meta a.
+Proof. intros a [| |k]; reflexivity. Qed.
+
+Lemma wev_of_same : forall w, wev_of w w = WNone.
+Proof. intros w. apply (log_ev_wev w w (OFtdc []) WNone). reflexivity. Qed.
+
+Lemma tr_refl : forall j n c u w, st_holds j n c u -> tr j n u w [] c u w.
+Proof.
+  intros j n c u w H. split; [exact H|]. split; [reflexivity|]. exists WNone. split; [reflexivity|].
+  split; [intros X; contradiction|rewrite app_nil_r; reflexivity].
+Qed.
+
+Lemma flush_out_cls : forall j n c u w c' u' w' ok, flush_out j n c u w c' u' w' ok -> is_sdyn c' = is_sdyn c.
+Proof.
+  intros j n c u w c' u' w' ok Ho. inversion Ho; subst; try reflexivity. destruct c; reflexivity.
+Qed.
+
+(* what the observations of Resolve and Info must be in a specification state *)
+Definition obs_spec (j : bool) (a : aspec) (b : obs) : Prop :=
+  match b with
+  | BResolve r => r = spec_resolve j a
+  | BInfo _ s => s = Z.of_nat (length (a_pend a))
+  | _ => True
+  end.
+
+Lemma Inv_obs : forall j n c w a, Inv j n (c, w) a ->
+  c_resolve deflate c = spec_resolve j a /\ snd (c_info c) = Z.of_nat (length (a_pend a)) /\
+  Z.of_nat (length (a_pend a)) <= n /\ cjson c = Some j.
+Proof.
+  intros j n c w a ((u & Hh) & (_ & Hp & Hm) & _). cbn [fst snd] in *.
+  destruct (st_holds_pend j n c u Hh) as (Ep & Em & Ej). destruct (st_holds_obs j n c u Hh) as (Ei & Er).
+  destruct (st_holds_proj j n c u Hh) as (_ & (Hj & _ & Hlen & _)).
+  rewrite Ep in Hp. rewrite Em in Hm. rewrite Er, Ei, uc_resolve_spec. unfold spec_resolve. rewrite <- Hp, <- Hm, Hj.
+  cbn [snd]. repeat split; try assumption.
+Qed.
+
+Lemma step_inv : forall j n st a o st' b, 1 <= n -> Inv j n st a -> step deflate st o = (st', b) ->
+  Inv j n st' (spec_step a o b (wev_of (snd st) (snd st'))) /\ obs_spec j a b.
+Proof.
+  intros j n [c w] a o st' b Hn HI Hstep. pose proof HI as ((u & Hh) & Href & Hb & Hx). cbn [fst snd] in *.
+  destruct o as [d now| | | | |m|]; cbn [step] in Hstep.
+  - destruct (c_add_out j n c u w d now Hn Hh) as (c' & u' & w' & r & Ha & Ho & Hcls). rewrite Ha in Hstep.
+    injection Hstep as E1 E2. subst st' b. cbn [snd]. split; [|exact I].
+    pose proof (tr_inv j n c w a u _ c' u' w' HI Hh (gen_out_tr j n u w d c' u' w' r Ho) Hcls) as HI'. cbn zeta in HI'.
+    unfold spec_step, spec_op.
+    destruct r; rewrite ?app_nil_r in HI'; try (rewrite <- (spec_flush_meta a (wev_of w w')) in HI'; rewrite aspec_eta in HI'; exact HI').
+    rewrite spec_flush_meta. exact HI'.
+  - destruct (c_add_bad_out j n c u w Hh) as (c' & u' & w' & r & Ha & Hr & Hcls & Hcase). rewrite Ha in Hstep.
+    injection Hstep as E1 E2. subst st' b. cbn [snd]. split; [|exact I].
+    assert (Htr : tr j n u w [] c' u' w').
+    { destruct Hcase as [(E1 & E2 & E3)|(ok & Ho)].
+      - subst. apply tr_refl. exact Hh.
+      - apply (flush_out_tr j n c u w c' u' w' ok); [lia|exact Hh|exact Ho]. }
+    pose proof (tr_inv j n c w a u _ c' u' w' HI Hh Htr Hcls) as HI'. cbn zeta in HI'.
+    unfold spec_step, spec_op. rewrite app_nil_r in HI'.
+    rewrite <- (spec_flush_meta a (wev_of w w')) in HI'. rewrite aspec_eta in HI'. exact HI'.
+  - injection Hstep as E1 E2. subst st' b. cbn [snd obs_spec]. rewrite wev_of_same.
+    split; [exact HI|]. apply (Inv_obs j n c w a HI).
+  - injection Hstep as E1 E2. subst st' b. cbn [snd]. rewrite wev_of_same. split; [|exact I].
+    unfold spec_step, spec_op, spec_flush. cbn [a_recs a_pend a_meta].
+    pose proof (c_reset_holds j n c u ltac:(lia) Hh) as Hh'.
+    destruct (st_holds_pend j n c u Hh) as (Ep & Em & _). destruct (st_holds_pend j n _ _ Hh') as (Ep' & Em' & _).
+    destruct Href as (Hlog & Hp & Hm). cbn [fst snd] in *.
+    split; [exists (uc_reset u); exact Hh'|]. split; [|split; [exact Hb|]].
+    + unfold refines. cbn [fst snd a_recs a_pend a_meta]. split; [exact Hlog|]. split; [rewrite Ep'; reflexivity|].
+      rewrite Em'. cbn [uc_reset uc_meta]. rewrite <- Em. exact Hm.
+    + cbn [fst]. intros Hs. apply Hx. destruct c; try discriminate Hs; reflexivity.
+  - destruct (c_flush_out j n c u w Hh) as (c' & u' & w' & ok & Hf & Ho). rewrite Hf in Hstep.
+    injection Hstep as E1 E2. subst st' b. cbn [snd]. split; [|exact I].
+    pose proof (tr_inv j n c w a u _ c' u' w' HI Hh (flush_out_tr j n c u w c' u' w' ok ltac:(lia) Hh Ho)
+                       (flush_out_cls j n c u w c' u' w' ok Ho)) as HI'. cbn zeta in HI'.
+    unfold spec_step, spec_op. rewrite app_nil_r in HI'.
+    rewrite <- (spec_flush_meta a (wev_of w w')) in HI'. rewrite aspec_eta in HI'. exact HI'.
+  - injection Hstep as E1 E2. subst st' b. cbn [snd]. rewrite wev_of_same. split; [|exact I].
+    unfold spec_step, spec_op, spec_flush. cbn [a_recs a_pend a_meta].
+    pose proof (c_set_meta_holds j n c u m Hh) as Hh'.
+    destruct (st_holds_pend j n c u Hh) as (Ep & Em & _). destruct (st_holds_pend j n _ _ Hh') as (Ep' & Em' & _).
+    destruct Href as (Hlog & Hp & Hm). cbn [fst snd] in *.
+    split; [exists (uc_with_meta u m); exact Hh'|]. split; [|split; [exact Hb|]].
+    + unfold refines. cbn [fst snd a_recs a_pend a_meta]. split; [exact Hlog|]. split; [rewrite Ep'; cbn [uc_with_meta uc_samples]; rewrite <- Ep; exact Hp|].
+      rewrite Em'. reflexivity.
+    + cbn [fst]. intros Hs. apply Hx. destruct c; try discriminate Hs; reflexivity.
+  - destruct (st_holds_obs j n c u Hh) as (Ei & _). rewrite Ei in Hstep.
+    injection Hstep as E1 E2. subst st' b. cbn [snd obs_spec]. rewrite wev_of_same.
+    split; [exact HI|]. destruct (Inv_obs j n c w a HI) as (_ & Hinfo & _). rewrite Ei in Hinfo. exact Hinfo.
+Qed.
+
+Lemma init_inv : forall k n fs, unc_kind k = true -> 0 <= n -> Inv (kind_json k) n (init_state k n fs) aspec0.
+Proof.
+  intros k n fs Hk Hn. unfold init_state, Inv. cbn [fst snd].
+  pose proof (st_new_holds k n Hk Hn) as Hh.
+  split; [eexists; exact Hh|]. split; [|split; [constructor|intros _; constructor]].
+  destruct (st_holds_pend _ _ _ _ Hh) as (Ep & Em & _).
+  unfold refines. cbn [fst snd w_log aspec0 a_recs a_pend a_meta map]. rewrite Ep, Em. repeat split.
+Qed.
+
+(* the invariant along a whole history *)
+Lemma spec_trace_inv : forall j n ops st a, 1 <= n -> Inv j n st a ->
+  Inv j n (fst (spec_trace deflate st a ops)) (snd (spec_trace deflate st a ops)).
+Proof.
+  intros j n ops. induction ops as [|o r IH]; intros st a Hn HI; [exact HI|].
+  cbn [spec_trace]. destruct (step deflate st o) as [st' b] eqn:Es.
+  apply IH; [exact Hn|]. apply (step_inv j n st a o st' b Hn HI Es).
+Qed.
+
+Lemma spec_trace_run : forall ops st a, fst (spec_trace deflate st a ops) = fst (run deflate st ops).
+Proof.
+  induction ops as [|o r IH]; intros st a; [reflexivity|].
+  cbn [spec_trace run]. destruct (step deflate st o) as [st' b].
+  specialize (IH st' (spec_step a o b (wev_of (snd st) (snd st')))).
+  destruct (run deflate st' r) as [st'' bs]. cbn [fst] in *. exact IH.
+Qed.
+
+Lemma reachable_inv : forall k n st, unc_kind k = true -> 1 <= n -> reachable deflate k n st ->
+  exists a, Inv (kind_json k) n st a.
+Proof.
+  intros k n st Hk Hn (fs & ops & E). rewrite <- (spec_trace_run ops _ aspec0) in E. subst st.
+  eexists. apply spec_trace_inv; [exact Hn|]. apply init_inv; [exact Hk|lia].
+Qed.
